@@ -22,7 +22,7 @@ pub fn run(ctx: &Ctx, rep: &mut Report) {
         }
     }
     // ---- batches whose members use different capacities
-    let nb = if ctx.thorough() { 600 } else { 96 };
+    let nb = if ctx.thorough() { 8000 } else { 96 };
     for b in 0..nb {
         id += 1;
         if ctx.mine(id) {
